@@ -254,7 +254,11 @@ def _run_data(shape, res, sink):
         if case == "count_mismatch":
             return [("list of 2 with n_offsets=0", lambda: vpd([mk(1, "a"), mk(1, "b")], 1, 0), ValueError),
                     ("list of 2 with n_offsets=2", lambda: vpd([mk(1, "a"), mk(1, "b")], 1, 2), ValueError),
-                    ("list of 3 with n_offsets=1", lambda: vpd([mk(1, "a"), mk(1, "b"), mk(1, "c")], 2, 1), ValueError)]
+                    ("list of 3 with n_offsets=1", lambda: vpd([mk(1, "a"), mk(1, "b"), mk(1, "c")], 2, 1), ValueError),
+                    # labels of different lengths, one a prefix of another; integer and mixed-width labels
+                    ("dict {hires, harps, harpsn} with n_offsets=1", lambda: vpd({"hires": mk(1, "a"), "harps": mk(1, "b"), "harpsn": mk(2, "c")}, 1, 1), ValueError),
+                    ("dict {a, ab} with n_offsets=0", lambda: vpd({"a": mk(1, "a"), "ab": mk(1, "b")}, 1, 0), ValueError),
+                    ("dict {1, 10, 100} with n_offsets=1", lambda: vpd({1: mk(1, "a"), 10: mk(1, "b"), 100: mk(1, "c")}, 1, 1), ValueError)]
         if case == "non_rvdata":
             return [("a tuple of arrays as a source", lambda: vpd([mk(1, "a"), (1.0, 2.0, 3.0)], 1, 1), TypeError),
                     ("a non-iterable", lambda: vpd(42, 1, 0), TypeError)]
@@ -265,6 +269,7 @@ def _run_data(shape, res, sink):
         if case == "ok_list":
             return [("list of 2 with n_offsets=1", lambda: vpd([mk(1, "a"), mk(2, "b")], 2, 1), None)]
         return [("dict of 3 with n_offsets=2", lambda: vpd({"x": mk(1, "a"), "y": mk(1, "b"), "z": mk(1, "c")}, 1, 2), None),
+                ("dict {hires, harps, harpsn} with n_offsets=2", lambda: vpd({"hires": mk(1, "a"), "harps": mk(1, "b"), "harpsn": mk(2, "c")}, 1, 2), None),
                 ("single RVData with n_offsets=0", lambda: vpd(mk(2, "a"), 1, 0), None)]
     ex = core.Explorer(max_paths=200)
     twin = False
@@ -459,7 +464,12 @@ def _replay_other(shape, m):
     cases = [(lambda: validate_prepare_data([d(2), d(2, 1)], 1, 0), ValueError), (lambda: validate_prepare_data([d(2), d(2, 1)], 1, 2), ValueError),
              (lambda: validate_prepare_data([d(2), (1.0, 2.0)], 1, 1), TypeError), (lambda: validate_prepare_data(42, 1, 0), TypeError),
              (lambda: validate_prepare_data([d(2), dc], 1, 1), NotImplementedError), (lambda: validate_prepare_data(d(2), 1, 1), ValueError),
-             (lambda: validate_prepare_data([d(2), d(2, 1)], 2, 1), None), (lambda: validate_prepare_data({"x": d(1), "y": d(1, 1), "z": d(1, 2)}, 1, 2), None)]
+             (lambda: validate_prepare_data([d(2), d(2, 1)], 2, 1), None), (lambda: validate_prepare_data({"x": d(1), "y": d(1, 1), "z": d(1, 2)}, 1, 2), None),
+             # source labels of different lengths (one a prefix of another) and integer labels of different widths
+             (lambda: validate_prepare_data({"hires": d(1), "harps": d(1, 1), "harpsn": d(2, 2)}, 1, 1), ValueError),
+             (lambda: validate_prepare_data({"a": d(1), "ab": d(1, 1)}, 1, 0), ValueError),
+             (lambda: validate_prepare_data({1: d(1), 10: d(1, 1), 100: d(1, 2)}, 1, 1), ValueError),
+             (lambda: validate_prepare_data({"hires": d(1), "harps": d(1, 1), "harpsn": d(2, 2)}, 1, 2), None)]
     if shape["what"] == "joker_init":
         prior = tj.JokerPrior.default(P_min=2 * u.day, P_max=100 * u.day, sigma_K0=30 * u.km / u.s, sigma_v=10 * u.km / u.s)
         import types as _t
